@@ -45,19 +45,3 @@ Lemma car_int_groups_witness :
   mean Q q0 q1 qadd qdiv (col Q q0 0 [[0%Q]; [0%Q]; [1%Q]]) = (1 # 3)%Q.
 Proof. vm_compute. repeat split. Qed.
 
-(* ---- kfilt body with more padding than channels (F-C05-g) ---- *)
-(* one channel, ntr_pad = 2, no gain control, H = identity (shape preserving): the mirrored
-   padding adds one row per side, the crop removes two per side: the result has 0 rows *)
-Lemma kfilt_short_block_witness :
-  kfilt_base Q q0 q1 qadd qmul qdiv qeqb qabs (fun _ m => m) (fun _ _ => []) (fun _ => []) q0
-    {| k_ntr_pad := 2; k_ntr_tap := 0; k_lagc := 0; k_butter := 0; k_gpu := 0 |} [[1%Q; 2%Q]] = [].
-Proof. vm_compute. reflexivity. Qed.
-
-Lemma kfilt_short_block_refuted :
-  exists (H : Z -> list (list Q) -> list (list Q)) p (x : list (list Q)),
-    (forall b m, length (H b m) = length m) /\
-    length (kfilt_base Q q0 q1 qadd qmul qdiv qeqb qabs H (fun _ _ => []) (fun _ => []) q0 p x) <> length x.
-Proof.
-  exists (fun _ m => m), {| k_ntr_pad := 2; k_ntr_tap := 0; k_lagc := 0; k_butter := 0; k_gpu := 0 |}, [[1%Q; 2%Q]].
-  split; [reflexivity|]. vm_compute. discriminate.
-Qed.
